@@ -119,6 +119,9 @@ theorem complete_message_still_delivered (s : Streams) (k : Nat) (tag : String)
     ((s.stream k).pendingRecv = [] → s.recvPollData k tag = (s, .none)) :=
   ⟨fun _ _ _ hq => recvPollData_data hq, fun hq => recvPollData_eos_end h hq⟩
 
+/-- non-vacuity: response with DATA + END_STREAM buffered, stream `Closed(EndStream)` -/
+example : (W2.w5.stream 0).state.isRecvEndStream = true ∧ (W2.w5.stream 0).pendingRecv = [.data [1, 2, 3] false] := by decide
+
 /-- **Closed stays closed, woken stays woken.**  Whatever the connection task or any handle does next (any
     non-`poll_*` operation with any arguments), a stream entry that is `Closed` stays `Closed` (or is
     released), and `conn_error` stays set: the answers above remain valid for every later poll. -/
@@ -130,6 +133,11 @@ theorem closed_is_forever (op : Op) (s : Streams) (hb : KeysBounded s.store) (k 
   rcases (op.step s).keep k a (hb.get? ha) ha with h | ⟨b, hb', hab⟩
   · exact Or.inl h
   · exact Or.inr ⟨b, hb', hab.closed hc⟩
+
+example : KeysBounded W1.w3.store ∧ (W1.w3.store.get? 0).isSome = true ∧ (W1.w3.stream 0).state.isClosed = true := by
+  refine ⟨fun a ha => ?_, by decide, by decide⟩
+  have : W1.w3.store.slab.all (fun a => decide (a.key < W1.w3.store.nextKey)) = true := by decide
+  exact of_decide_eq_true (List.all_eq_true.mp this a ha)
 
 /-- **The store invariant is not a restriction**: it holds in the initial state of both roles and is kept
     by every operation (35 non-`poll_*` operations and 8 `poll_*`/parking operations, any arguments),
@@ -157,6 +165,8 @@ theorem connection_future_completes (n : Nat) (c : Conn) (r : Reason) (i : Initi
     (c.state = .closing r i → ∀ c', Conn.protoPoll (n + 2) c = (c', .pending) → c'.codec.io.writeWaker = some c.cx) :=
   ⟨protoPoll_closed n c r i, fun h w io hs => protoPoll_closing n c r i h w io hs,
    fun h c' hp => protoPoll_closing_pending n c c' r i h hp⟩
+
+example : ({ state := .closed 0 .library } : Conn).state = .closed 0 .library := rfl
 
 /-- **Dropping the connection resolves everything.**  After `Drop for Connection` (`recv_eof(true)`) and the
     drop of the `SendRequest` handles — in whatever state the connection was: mid-exchange, after an
